@@ -1,5 +1,7 @@
 import HydroVerif.Proto
 import HydroVerif.Model.C09
+import HydroVerif.Model.C09Num
+import HydroVerif.Model.C09Fs
 open HydroVerif HydroVerif.C09
 
 /-- strings cross the protocol as lists of code points -/
@@ -15,12 +17,62 @@ def fmtOpened : Option Opened → String
   | some (.plain f) => s!"plain [{fmtStr f}]"
   | some (.zipMember f m) => s!"zip [{fmtStr f}] [{fmtStr m}]"
 
+def optStr (tok : String) : Option Str := if tok == "-" then none else some (parseStr tok)
+
+def fmtOutcome : ReadOutcome → String
+  | .text t => s!"t[{fmtStr t}]"
+  | .notFound => "notFound"
+  | .noMember => "noMember"
+  | .wrongKind => "wrongKind"
+
+def parseOp (tok : String) : Option Op :=
+  match parseStrs tok with
+  | [k, name, c, s, text] =>
+    if k == ['w'] then some (.write name (c == ['1']) (s == ['1']) text) else none
+  | [k, name] => if k == ['r'] then some (.read name) else none
+  | _ => none
+
+def parseAOp (tok : String) : Option AOp :=
+  match parseStrs tok with
+  | [k, m, text] => if k == ['w'] then some (.write m text) else none
+  | [k, m] => if k == ['r'] then some (.read m) else none
+  | _ => none
+
+def fmtStored : Str × Stored → String
+  | (f, .plain _) => s!"p[{fmtStr f}]"
+  | (f, .zip ms) => s!"z[{fmtStr f}]" ++ fmtStrs (ms.map (·.1))
+
+def ratOf (num den : String) : Option Rat :=
+  match num.toInt?, den.toNat? with
+  | some n, some d => if d = 0 then none else some ((n : Rat) / (d : Rat))
+  | _, _ => none
+
 def handle (toks : List String) : String :=
   match toks with
   | ["hdr", nrow, ncol, keys, vals, system] =>
     match nrow.toNat?, ncol.toNat? with
     | some nrow, some ncol =>
       let lines := csvhead nrow ncol ((parseStrs keys).zip (parseStrs vals)) (parseStrs system)
+      let d := readHeader (lines.map (· ++ ['\n']))
+      fmtStrs lines ++ " " ++ fmtStrs (d.map (·.1)) ++ " " ++ fmtStrs (d.map (·.2))
+    | _, _ => "bad-op"
+  | ["hdrf", nrow, ncol, kind, keys, vals, time, author, writeSys, getuser, path, name, sysvals] =>
+    match nrow.toNat?, ncol.toNat? with
+    | some nrow, some ncol =>
+      let arg : CommentArg :=
+        if kind == "str" then .str ((parseStrs vals).headD [])
+        else if kind == "list" then .list (parseStrs vals)
+        else .dict ((parseStrs keys).zip (parseStrs vals))
+      let ws := writeSys == "1"
+      let sys : Option SysInfo :=
+        if ws then
+          match parseStrs sysvals with
+          | [wd, os, pv, pdv, npv] => some ⟨wd, os, pv, pdv, npv, none⟩
+          | [wd, os, pv, pdv, npv, inc, lib] => some ⟨wd, os, pv, pdv, npv, some (inc, lib)⟩
+          | _ => none
+        else none
+      let auth := resolveAuthor (optStr author) ws (optStr getuser)
+      let lines := csvheadFull nrow ncol arg (systemPairs (parseStr time) auth (parseStr path) (parseStr name) sys)
       let d := readHeader (lines.map (· ++ ['\n']))
       fmtStrs lines ++ " " ++ fmtStrs (d.map (·.1)) ++ " " ++ fmtStrs (d.map (·.2))
     | _, _ => "bad-op"
@@ -40,6 +92,47 @@ def handle (toks : List String) : String :=
   | ["row", fields] => "[" ++ fmtStr (writeRow (parseStrs fields)) ++ "]"
   | ["parse", line] => fmtStrs (parseRow (parseStr line))
   | ["cols", line] => fmtStrs (splitCols (parseStr line))
+  | "wfile" :: head :: names :: rows =>
+    "[" ++ fmtStr (writeFile (parseStrs head) ⟨parseStrs names, rows.map parseStrs⟩) ++ "]"
+  | ["rfile", text] =>
+    match readFile (parseStr text) with
+    | none => "none"
+    | some r => " ".intercalate ([fmtStrs (r.comment.map (·.1)), fmtStrs (r.comment.map (·.2)), fmtStrs r.table.names]
+        ++ r.table.rows.map fmtStrs)
+  | ["fmtf", d, neg, num, den] =>
+    match d.toNat?, ratOf num den with
+    | some d, some q => "[" ++ fmtStr (fmtFixed d (neg == "1") q) ++ "]"
+    | _, _ => "bad-op"
+  | ["fmte", d, neg, num, den] =>
+    match d.toNat?, ratOf num den with
+    | some d, some q => "[" ++ fmtStr (fmtExp d (neg == "1") q) ++ "]"
+    | _, _ => "bad-op"
+  | ["fmti", z] =>
+    match z.toInt? with
+    | some z => "[" ++ fmtStr (fmtInt z) ++ "]"
+    | none => "bad-op"
+  | ["pnum", text] =>
+    match parseSci (parseStr text) with
+    | some q => fmtRat q
+    | none => "none"
+  | ["pint", text] =>
+    match parseInt (parseStr text) with
+    | some z => toString z
+    | none => "none"
+  | "fs" :: ops =>
+    match allSome (ops.map parseOp) with
+    | none => "bad-op"
+    | some ops =>
+      let (d, outs) := run [] ops
+      " ".intercalate (("[" ++ ";".intercalate (d.map fmtStored) ++ "]") :: outs.map fmtOutcome)
+  | "arc" :: ops =>
+    match allSome (ops.map parseAOp) with
+    | none => "bad-op"
+    | some ops =>
+      let (a, outs) := arun [] ops
+      -- members, what each member reads as by the specification `firstWrite`, then the outcome of every operation
+      " ".intercalate (fmtStrs (a.map (·.1)) :: fmtStrs (a.map fun e => (firstWrite ops e.1).getD ['?'])
+        :: outs.map fun o => match o with | some t => s!"[{fmtStr t}]" | none => "none")
   | _ => "bad-op"
 
 def main : IO Unit := serve handle
